@@ -78,7 +78,7 @@ REFINE = {
  'C16': 'pppoesrv: `monitor_silent_on_model` (+ timed layer `timed_projects`); teardown: `per_session_clauses_silent_on_model` (not-terminated clauses: runs only); submgr, dhcpterm: runs only',
  'C19': 'over-admit monitor proved sound (`over_admit_monitor_sound`)',
 }
-TRANSL = {'C06': 'extractlayout', 'C11': 'extractfsm (+ reference tables for the search)', 'C16': 'extractpaths'}
+TRANSL = {'C04': 'extractguards', 'C06': 'extractlayout', 'C11': 'extractfsm (+ reference tables for the search)', 'C16': 'extractpaths'}
 rows = []
 for i in range(1, 21):
     pid = 'C%02d' % i
